@@ -45,6 +45,10 @@ TARGETS = {
     'ws-port': ('ws://target.example:9000/', 'target.example', 9000, False),
     'wss': ('wss://target.example/secure', 'target.example', 443, True),
     'wss-port': ('wss://target.example:9443/', 'target.example', 9443, True),
+    # IPv6 literals: the authority of the CONNECT request line needs the brackets (RFC 7230 5.3.3, RFC 3986 3.2.2),
+    # "CONNECT 2001:db8::5:81" cannot be split into host and port by anybody
+    'ws-v6-port': ('ws://[2001:db8::5]:81/six', '2001:db8::5', 81, False),
+    'wss-v6': ('wss://[::1]/', '::1', 443, True),
 }
 OK_REPLIES = {
     'ok-plain': b'HTTP/1.1 200 Connection established\r\n\r\n',
@@ -270,8 +274,8 @@ def judge(run, w, turl, thost, tport, tsecure, purl, phost, pport, psecure, cred
         m = re.match(rb'^CONNECT (\S+) HTTP/1\.1\r\n', first)
         if not m:
             return 'first-bytes-not-a-CONNECT-request', detail
-        if m.group(1) != ('%s:%d' % (thost, tport)).encode():
-            return 'CONNECT-authority-is-not-the-target', detail
+        if m.group(1) != ('%s:%d' % ('[%s]' % thost if ':' in thost else thost, tport)).encode():
+            return 'CONNECT-authority-is-not-the-target' + (':ipv6-literal' if ':' in thost else ''), detail
         if not first.endswith(b'\r\n\r\n') or first.count(b'\r\n\r\n') != 1:
             return 'CONNECT-request-malformed', detail
         if creds is not None and base64.b64encode(creds) not in first:
@@ -321,7 +325,8 @@ def judge(run, w, turl, thost, tport, tsecure, purl, phost, pport, psecure, cred
     else:
         acc.count2('oracle', 'tunnel_refused')
         if names != ['connecting', 'connect_fail']:
-            if case.get('reply', '').startswith(('status-2_00', 'status-plus200', 'status-0200', 'not-http-')):
+            if isinstance(reply, (bytes, bytearray)) and (bytes(reply).startswith((b'ICY', b'\xff\xfe', b'ERR\n')) or
+                                                           bytes(reply).split(b' ')[1:2] in ([b'2_00'], [b'+200'], [b'0200'])):
                 return 'no-connect_fail-for-failed-tunnel:answer-is-not-a-200-status-line', detail
             return 'no-connect_fail-for-failed-tunnel', detail
         if b'GET ' in wire or b'Sec-WebSocket-Key' in wire or b'Upgrade: websocket' in wire:
